@@ -110,9 +110,39 @@ def r2(cx, rec):
         if clo:
             cf, r = closure_ret(F, clo[0][1])
             pred = r
+    okpred = pred is not None and pred[0] == 'call' and pred[4].get('name') == 'ne' and pred[2][1][0] == 'agg' and pred[2][1][3] == 'Have' and status_field(F) in show(pred[2][0])
+    lid = ce[2][-1] if ce[2][0] in ('var', 'mvar') and isinstance(ce[2][-1], int) else None
+    if not okc and lid is not None:
+        # explicit loop: a counter initialised to 0 and incremented only behind `status[i] != Have` for a loop index i
+        incs = []
+        inits = []
+        for bi, si, s in Ch.assigns():
+            if not s['lhs'].get('p') and s['lhs']['l'] == lid:
+                v = Ch.expr_rvalue(s['rv'])
+                while v[0] == 'field' and v[2] == '0':
+                    v = v[1]
+                if const_of(v) and v[0] == 'const' and const_of(v)[0] == 0:
+                    inits.append(bi)
+                elif v[0] == 'binop' and v[1].startswith('Add') and v[2][0] in ('var', 'mvar') and v[2][-1] == lid and const_of(v[3]) and const_of(v[3])[0] == 1:
+                    incs.append(bi)
+                else:
+                    incs.append(None)
+        guarded = bool(incs) and None not in incs
+        for ib in [b for b in incs if b is not None]:
+            g = False
+            for s2 in Ch.switches():
+                c2 = Ch.cond(s2)[0]
+                be = Ch.bool_edges(s2)
+                if be and c2[0] == 'call' and c2[4].get('name') in ('ne', 'eq') and c2[2][1][0] == 'agg' and c2[2][1][3] == 'Have' and \
+                        status_field(F) in show(c2[2][0]) and 'Iterator::next(' in show(c2[2][0]):
+                    edge = be[0] if c2[4]['name'] == 'ne' else be[1]
+                    if ib in Ch.only_via_edge((s2, edge)) or ib == edge:
+                        g = True
+                        pred = c2
+            guarded = guarded and g
+        okpred = guarded and len(inits) == 1
     rec.site(Ch, sb, 'still-missing counts %s' % (show(pred)[-70:] if pred else None))
-    rec.need(pred is not None and pred[0] == 'call' and pred[4].get('name') == 'ne' and pred[2][1][0] == 'agg' and pred[2][1][3] == 'Have' and status_field(F) in show(pred[2][0]),
-             'still-missing-predicate', Ch, sb, 'the number compared with the threshold does not count `status != Have`')
+    rec.need(okpred, 'still-missing-predicate', Ch, sb, 'the number compared with the threshold does not count `status != Have`')
     for lab, bb, want in (('end-game', tbox, ('ne', 'Have')), ('normal', fbox, ('eq', 'Missing'))):
         clo = [x for x in walk(Ch.expr_call(bb)) if x[0] == 'closure']
         cf, r = closure_ret(F, clo[0][1])
@@ -134,6 +164,26 @@ def r2(cx, rec):
             cf, r = closure_ret(F, c[1])
             if r is not None and r[0] == 'call' and r[1] == 'std::ops::Fn::call' and access_path(r[2][0]) in box_names and show(r[2][1]).endswith('arg2.0}'):
                 okf = True
+    if not okf:
+        # explicit loop: every push into the candidate vector lies behind `selected_predicate(i)` for the pushed index i
+        sorts = [bb for bb in mirq.real_calls(Ch) if (Ch.expr_call(bb)[4].get('name') or '').startswith('sort')]
+        vec = mirq.root_var(Ch.expr_call(sorts[0])[2][0]) if sorts else None
+        pushes = [bb for bb in mirq.real_calls(Ch) if Ch.expr_call(bb)[4].get('name') == 'push' and vec and mirq.root_var(Ch.expr_call(bb)[2][0]) == vec]
+        okl = bool(pushes)
+        for pb in pushes:
+            item = Ch.expr_call(pb)[2][1]
+            idx = show(item[4][0][1]) if item[0] == 'agg' and item[1] == 'tuple' and item[4] else None
+            g = False
+            for s2 in Ch.switches():
+                c2 = Ch.cond(s2)[0]
+                be = Ch.bool_edges(s2)
+                if be and c2[0] == 'call' and c2[1] == 'std::ops::Fn::call' and any(x[0] == 'call' and x[3] in (tbox, fbox) for x in walk(c2[2][0], inl=False)):
+                    a = c2[2][1]
+                    a0 = show(a[4][0][1]) if a[0] == 'agg' and a[4] else show(a)
+                    if a0 == idx and (pb in Ch.only_via_edge((s2, be[0])) or pb == be[0]):
+                        g = True
+            okl = okl and g
+        okf = okl
     rec.need(okf, 'filter-not-applied', Ch, None, 'the selected filter is not applied to the piece index of each candidate')
 
 
